@@ -248,7 +248,7 @@ def _stmt(st: ast.stmt, p: Path) -> list[Path]:
             b = _branch(p, st.value.test, pol)
             out.extend(_stmt(ast.copy_location(ast.Return(value=v), st), b))
         return out
-    if isinstance(st, ast.Assign) and len(st.targets) == 1 and isinstance(st.targets[0], ast.Name) and isinstance(st.value, ast.IfExp):
+    if isinstance(st, ast.Assign) and len(st.targets) == 1 and isinstance(st.targets[0], (ast.Name, ast.Attribute)) and isinstance(st.value, ast.IfExp):
         # `x = a if c else b`  ==  `if c: x = a` / `else: x = b`
         out = []
         for pol, v in ((True, st.value.body), (False, st.value.orelse)):
